@@ -2369,7 +2369,7 @@ impl LineBuf {
 					return MotionKind::Null
 				};
 				let mut target_pos = self.grapheme_index_for_display_col(&line, target_col);
-				if self.cursor.exclusive && line.ends_with("\n") && self.grapheme_at(target_pos) == Some("\n") {
+				if self.cursor.exclusive && line.ends_with("\n") && line.graphemes(true).nth(target_pos) == Some("\n") {
 					target_pos = target_pos.saturating_sub(1); // Don't land on the newline
 				}
 				MotionKind::InclusiveWithTargetCol((start,end),target_pos)
@@ -2789,7 +2789,7 @@ impl LineBuf {
 					return MotionKind::Null
 				};
 				let mut target_pos = self.grapheme_index_for_display_col(&line, target_col);
-				if self.cursor.exclusive && line.ends_with("\n") && self.grapheme_at(target_pos) == Some("\n") {
+				if self.cursor.exclusive && line.ends_with("\n") && line.graphemes(true).nth(target_pos) == Some("\n") {
 					target_pos = target_pos.saturating_sub(1); // Don't land on the newline
 				}
 
@@ -3289,12 +3289,25 @@ impl LineBuf {
 								// 'cc': the lines are emptied and the typed text goes where they began
 								self.cursor.set(range_start);
 							}
+						MotionKind::ExclusiveWithTargetCol((range_start,_),pos) |
+							MotionKind::InclusiveWithTargetCol((range_start,_),pos) if verb == Verb::Yank && !self.is_selecting() => {
+								// 'yy', 'yj' leave the cursor alone, 'yk' takes it to the first of the lines, in its column
+								if range_start < self.start_of_line() {
+									self.cursor.set(range_start + pos);
+								}
+							}
 						MotionKind::ExclusiveWithTargetCol((_,_),pos) |
 							MotionKind::InclusiveWithTargetCol((_,_),pos) => {
 								let (start,end) = self.this_line();
 								self.cursor.set(start);
 								self.cursor.add(end.min(pos));
 							}
+						MotionKind::LineOffset(offset) if verb == Verb::Yank && !self.is_selecting() => {
+							// 'yG' leaves the cursor alone, 'ygg' takes it to the first of the lines, in its column
+							if offset < 0 {
+								self.move_cursor(motion);
+							}
+						}
 						_ => {
 							let Some((start,_)) = self.range_from_motion(&motion) else {
 								self.move_cursor(motion);
